@@ -1,0 +1,83 @@
+//go:build verif
+// +build verif
+
+// Contracts for deductive verification of package crypto (comment-only; compiled only
+// with the build tag "verif"). Grammar: /verif/DESIGN.md, Appendix B.
+
+package crypto
+
+// ---------------------------------------------------------------- C33 encrypted configuration values: padding and ECB block walk
+// The block cipher itself (crypto/aes) is trusted: a Block of size blkSize whose Encrypt/Decrypt read one block of src and write
+// one block of dst and panic on shorter arguments (preconditions below = the panics of crypto/aes).
+//@ pure blkSize(b cipher.Block) int
+//@ trusted crypto/aes.NewCipher
+//@   params key
+//@   pure-call
+//@   ensures ret1 == nil ==> ret0 != nil && blkSize(ret0) == 16
+//@ trusted (crypto/cipher.Block).BlockSize
+//@   params recv
+//@   pure-call
+//@   ensures ret0 == blkSize(recv)
+//@ trusted (crypto/cipher.Block).Encrypt
+//@   params recv, dst, src
+//@   requires len(src) >= blkSize(recv) && len(dst) >= blkSize(recv)
+//@   assigns dst[0:blkSize(recv)]
+//@ trusted (crypto/cipher.Block).Decrypt
+//@   params recv, dst, src
+//@   requires len(src) >= blkSize(recv) && len(dst) >= blkSize(recv)
+//@   assigns dst[0:blkSize(recv)]
+//@ trusted bytes.Repeat
+//@   params b, count
+//@   pure-call
+//@   requires count >= 0
+//@   ensures fresh(ret0) && len(ret0) == len(b) * count && forall(k, 0, len(ret0), len(b) == 1 ==> ret0[k] == b[0])
+
+// arithmetic core of the round trip: the pad length of n bytes is between 1 and the block size, fits a byte, completes a block,
+// and removing it again gives n bytes
+//@ pure padLen(n int, bs int) int = bs - n % bs
+//@ lemma padRoundTrip: forall(n int, forall(bs int, 0 <= n && n <= 1<<40 && 1 <= bs && bs <= 255 ==> 1 <= padLen(n, bs) && padLen(n, bs) <= bs && (n + padLen(n, bs)) % bs == 0 && n + padLen(n, bs) >= padLen(n, bs) && (n + padLen(n, bs)) - padLen(n, bs) == n))
+//@ property C33: lemma padRoundTrip, pkcs5Padding, pkcs5UnPadding, newECBEncrypter, newECBDecrypter, (*ecbEncrypter).cryptBlocks, (*ecbDecrypter).cryptBlocks, EncryptECB, DecryptECB
+
+// the padded text is the data followed by padLen bytes, each holding padLen
+//@ func pkcs5Padding
+//@   requires 1 <= blockSize && blockSize <= 255 && len(ciphertext) <= 1<<40
+//@   ensures len(ret0) == len(ciphertext) + padLen(len(ciphertext), blockSize)
+//@   ensures forall(k, 0, len(ciphertext), ret0[k] == old(ciphertext[k]))
+//@   ensures forall(k, len(ciphertext), len(ret0), ret0[k] == padLen(len(ciphertext), blockSize))
+
+// unpadding never panics: it strips as many bytes as the last byte says, or fails when that is more than there is
+//@ func pkcs5UnPadding
+//@   assigns \nothing
+//@   ensures case empty:  len(origData) == 0 ==> ret1 == nil && len(ret0) == 0
+//@   ensures case strip:  len(origData) > 0 && int(origData[len(origData)-1]) <= len(origData) ==> ret1 == nil && len(ret0) == len(origData) - int(origData[len(origData)-1]) && sameArray(ret0, origData) && forall(k, 0, len(ret0), ret0[k] == origData[k])
+//@   ensures case reject: len(origData) > 0 && int(origData[len(origData)-1]) > len(origData) ==> ret1 != nil
+
+//@ func newECBEncrypter
+//@   requires b != nil
+//@   ensures ret0 != nil && fresh(ret0) && ret0.b == b && ret0.blockSize == blkSize(b)
+//@ func newECBDecrypter
+//@   requires b != nil
+//@   ensures ret0 != nil && fresh(ret0) && ret0.b == b && ret0.blockSize == blkSize(b)
+
+// the block walk: rejects partial blocks and short outputs, otherwise hands every block of src to the cipher (never a short
+// slice: no panic), writing only dst[0:len(src)]
+//@ func (*ecbEncrypter).cryptBlocks
+//@   requires e != nil && e.b != nil && e.blockSize == blkSize(e.b) && e.blockSize > 0
+//@   assigns dst[0:len(src)]
+//@   loop 0 invariant len(cur(src)) % e.blockSize == 0 && len(cur(dst)) >= len(cur(src)) && cur(dst) == dst[len(src)-len(cur(src)):] && len(cur(src)) <= len(src)
+//@   loop 0 assigns dst
+//@   ensures (ret0 != nil) <==> (len(src) % e.blockSize != 0 || len(dst) < len(src))
+//@ func (*ecbDecrypter).cryptBlocks
+//@   requires e != nil && e.b != nil && e.blockSize == blkSize(e.b) && e.blockSize > 0
+//@   assigns dst[0:len(src)]
+//@   loop 0 invariant len(cur(src)) % e.blockSize == 0 && len(cur(dst)) >= len(cur(src)) && cur(dst) == dst[len(src)-len(cur(src)):] && len(cur(src)) <= len(src)
+//@   loop 0 assigns dst
+//@   ensures (ret0 != nil) <==> (len(src) % e.blockSize != 0 || len(dst) < len(src))
+
+// encryption pads to whole blocks; decryption of ANY byte string ends in an error or data, never in a panic, and on success
+// returns the decrypted text without the number of bytes its last byte names
+//@ func EncryptECB
+//@   requires len(data) <= 1<<40
+//@   ensures err == nil ==> len(result) == len(data) + padLen(len(data), 16)
+//@ func DecryptECB
+//@   ensures err == nil && len(data) > 0 ==> len(result) == len(data) - int(data[len(data)-1]) && len(data) % 16 == 0
